@@ -69,10 +69,24 @@ PollBegin(f) == Begin("polling", f)
 SyncBegin(f) == Begin("syncing", f)
 
 (* The source injected an error or a lie (logged by the source itself).    *)
+(* Lies include a correct header served with a wrong accumulated chainwork  *)
+(* or a wrong height; whatever the source says, ChainWork / Height below    *)
+(* are the REAL ones of the block tree.                                      *)
 Fault ==
   /\ phase \in {"polling", "syncing"}
   /\ faulted' = TRUE
   /\ UNCHANGED <<nb, parent, bwork, srcTip, nl, ltip, phase, startTip, moved, connd>>
+
+(* "each poll either leaves the listeners untouched or moves them to a tip  *)
+(* with more accumulated work": whatever the source answered (errors, lies  *)
+(* about work or height included), a poll notifies a listener only on the   *)
+(* way to a source tip that REALLY has more accumulated work than the block  *)
+(* the listener was on when the poll began.  (After a failed fetch the walk  *)
+(* may stop short of that tip; it never heads for a tip with less or equal   *)
+(* work.)  Start-up synchronisation goes to the source's tip whatever its    *)
+(* work, so the guard is for polls only.                                     *)
+TowardsMoreWork(i) ==
+  phase = "polling" => ChainWork(srcTip) > ChainWork(startTip[i])
 
 (* blocks_disconnected(f) on listener i: f must be a strict ancestor of    *)
 (* its tip, not beyond the fork point with the source's tip, and must come *)
@@ -80,6 +94,7 @@ Fault ==
 Disconnected(i, f) ==
   /\ phase \in {"polling", "syncing"}
   /\ i \in Listeners /\ f \in Blocks
+  /\ TowardsMoreWork(i)
   /\ f # ltip[i]
   /\ IsAncestor(f, ltip[i])
   /\ IsAncestor(Fork(startTip[i], srcTip), f)
@@ -94,6 +109,7 @@ Disconnected(i, f) ==
 Connected(i, b, h) ==
   /\ phase \in {"polling", "syncing"}
   /\ i \in Listeners /\ b \in 1..nb
+  /\ TowardsMoreWork(i)
   /\ parent[b] = ltip[i]
   /\ h = Height(b)
   /\ IsAncestor(b, srcTip)
